@@ -70,6 +70,24 @@ def value_for(space, name):
     return 0
 
 
+def encode_with(kind, cls, name, value, other, other_value, place):
+    """The name next to a VALID entry (`other`) of the same space: -> (accepted, present): accepted = from_obj/to_cbor raised
+    nothing; present = the re-decoded object names `name` (a member placed first / last must not be lost)."""
+    try:
+        if kind == "bits":
+            o = [other, name] if place == "last" else [name, other]
+        else:
+            o = {other: other_value, name: value} if place == "last" else {name: value, other: other_value}
+        b = cls.from_obj(o).to_cbor()
+    except Exception:
+        return False, False
+    try:
+        back = cls.from_cbor(b).to_obj()
+        return True, name in back
+    except Exception:
+        return True, False
+
+
 def encode(kind, cls, name, value):
     """-> (accepted, code, back)"""
     try:
@@ -116,9 +134,31 @@ def run(ctx: core.Check):
     car = carriers()
     tr = toolrun.Trace()
     n_enc = n_cross = 0
+    members = {}
+    for p in pairs:
+        if p["member"]:
+            members.setdefault(p["space"], [])
+            if p["name"] not in members[p["space"]]:
+                members[p["space"]].append(p["name"])
     for p in pairs:
         sp, name = p["space"], p["name"]
         kind, cls = car[sp]
+        if p["place"] != "alone":
+            # next to a valid entry: only carriers that hold several entries at once (maps, the policy list)
+            if kind not in ("kv", "bits"):
+                continue
+            other = next((m for m in sorted(members[sp]) if m != name), None)
+            if other is None:
+                continue
+            acc, present = encode_with(kind, cls, name, value_for(sp, name), other, value_for(sp, other), p["place"])
+            tr.begin({"space": sp, "name": name, "place": p["place"], "next_to": other})
+            if p["member"]:
+                tr.ev("Placed", space=sp, name=name, accepted=acc, present=present)
+            else:
+                tr.ev("Cross", space=sp, name=name, accepted=acc)
+            ctx.count("evaluations")
+            ctx.nontriv((sp, name, p["place"]))
+            continue
         acc, code, back = encode(kind, cls, name, value_for(sp, name))
         tr.begin({"space": sp, "name": name})
         if p["member"]:
